@@ -27,7 +27,7 @@ inductive ErrKind
   | chunkLenNotAscii | chunkLenNotANumber | chunkExpectedCrLf | bodyContentAfterFinish
   | bodyLargerThanContentLength | unfinishedRequest | httpParseFail (e : HErr) | httpParseTooManyHeaders
   | missingResponseVersion | responseMissingStatus | responseInvalidStatus | incompleteResponse
-  | noLocationHeader | badLocationHeader | headersWith100 | bodyIsChunked
+  | noLocationHeader | badLocationHeader | headersWith100 | bodyIsChunked | requestMissingMethod | requestInvalidMethod
   deriving DecidableEq, Repr
 
 inductive Fault | api (e : ErrKind) | panic (site : String)
